@@ -44,7 +44,7 @@ func oracleC11(l *harness.Live) (c11Info, *harness.Failure) {
 	env := &xref.Env{Doc: l.Doc}
 	want, err := refNodes(l)
 	if err != nil {
-		return info, harness.Failf("reference evaluates", err.Error(), "generator left the reference fragment")
+		return info, refFailure(err)
 	}
 	info.want = want.IDs()
 	ids, f := engineSelect(l)
